@@ -3,7 +3,8 @@ Spec: NixValid.tla (rule table: breach -> hard/soft and the entity that must car
 by TLC over every breach subset; HistoryFree, RepairRestores over in-place edit histories).  Binding: for every subset the harness builds the conforming base file (arrays of rank 1-2 with all four
 descriptor kinds, tag, multi-tag, features, section + property; data lengths vary with the seed), injects the breaches through the API or -
 where the API refuses them - through the HDF5 C API, runs valid::validate on every entity and File::validate, and compares per entity
-'has at least one error' (message texts are not compared)."""
+'has at least one error' (message texts are not compared) and, for every soft-rule breach present, 'the entity and the file carry at least
+one warning' (SoftWarns; warnings of entities without a soft breach are not judged)."""
 import vcheck
 
 def run(chk, replay=None):
@@ -32,6 +33,7 @@ def run(chk, replay=None):
     chk.rule = ('(1) one case per subset of <= %d breaches out of 19 hard + 7 soft rule breaches injected at specific entities of the base file (all subsets, '
                 'incompatible pairs excluded); (2) one case per Validate transition of every history of <= %d in-place steps (inject / repair / reopen / validate, '
                 'same process, same entity ids) - the verdict must depend on the breaches present only; evaluations = entity validations; compared: per entity '
-                '"has an error", and File::validate().hasErrors(), at every validation of the history') % ((4, 5) if chk.thorough else (3, 4))
-    chk.assumptions += ['one base-file shape (3 length variants by seed); message texts and warnings are not compared, only the presence of errors per entity',
+                '"has an error", and File::validate().hasErrors(), at every validation of the history; for every soft-rule breach present the entity '
+                '(and File::validate()) must carry a warning') % ((4, 5) if chk.thorough else (3, 4))
+    chk.assumptions += ['one base-file shape (3 length variants by seed); message texts are not compared, only the presence of errors per entity and of warnings for soft-rule breaches',
                         'trusted: TLC, harness/h_valid.cpp, HDF5 C API for the breaches the API refuses (unsorted ticks, interval <= 0, missing positions)']
